@@ -63,8 +63,9 @@ where
       let s_next = s.clone();
       let s_error = s.clone();
       let s_complete = s.clone();
+      let s_alive = s.clone();
 
-      *sbsc.write().unwrap() = Some(
+      let live =
         utils::ready_set_go(
           move || {
             // replay with no lock held: the subscriber may call back into this subject
@@ -89,8 +90,13 @@ where
           move || {
             s_complete.complete();
           },
-        ),
-      );
+        );
+      *sbsc.write().unwrap() = Some(live.clone());
+      if !s_alive.is_subscribed() {
+        // the subscriber ended during the replay (stored terminal, or it unsubscribed itself):
+        // do not leave its forwarder registered in the live subject
+        live.unsubscribe();
+      }
     })
   }
 
